@@ -160,6 +160,14 @@ func (g *Gen) Op(name string, ac *chain.Actor, ctx sdk.Context) sdk.Msg {
 			return &ammtypes.MsgSwapExactAmountOut{Sender: me, Routes: []ammtypes.SwapAmountOutRoute{{PoolId: 1, TokenInDenom: "uatom"}}, TokenOut: chain.CoinI("uusdc", g.Amt(1, 2e10)), TokenInMaxAmount: max}
 		}
 	case "swap2hop":
+		switch r.Intn(5) {
+		case 0: // a route that visits the same pool twice (round trip through one pool)
+			return &ammtypes.MsgSwapExactAmountIn{Sender: me, Routes: []ammtypes.SwapAmountInRoute{{PoolId: 2, TokenOutDenom: "uusdc"}, {PoolId: 2, TokenOutDenom: "uelys"}}, TokenIn: chain.CoinI("uelys", g.Amt(1e3, 1e10)), TokenOutMinAmount: math.NewInt(1)}
+		case 1: // pool 1 -> pool 2 -> pool 1
+			return &ammtypes.MsgSwapExactAmountIn{Sender: me, Routes: []ammtypes.SwapAmountInRoute{{PoolId: 1, TokenOutDenom: "uusdc"}, {PoolId: 2, TokenOutDenom: "uelys"}, {PoolId: 2, TokenOutDenom: "uusdc"}, {PoolId: 1, TokenOutDenom: "uatom"}}, TokenIn: chain.CoinI("uatom", g.Amt(1e3, 2e9)), TokenOutMinAmount: math.NewInt(1)}
+		case 2: // exact-out revisiting a pool
+			return &ammtypes.MsgSwapExactAmountOut{Sender: me, Routes: []ammtypes.SwapAmountOutRoute{{PoolId: 2, TokenInDenom: "uusdc"}, {PoolId: 2, TokenInDenom: "uelys"}}, TokenOut: chain.CoinI("uusdc", g.Amt(1e3, 1e9)), TokenInMaxAmount: math.NewInt(1e13)}
+		}
 		if r.Intn(2) == 0 {
 			return &ammtypes.MsgSwapExactAmountIn{Sender: me, Routes: []ammtypes.SwapAmountInRoute{{PoolId: 2, TokenOutDenom: "uusdc"}, {PoolId: 1, TokenOutDenom: "uatom"}}, TokenIn: chain.CoinI("uelys", g.Amt(1e3, 1e10)), TokenOutMinAmount: math.NewInt(1)}
 		}
@@ -442,6 +450,17 @@ func (g *Gen) Op(name string, ac *chain.Actor, ctx sdk.Context) sdk.Msg {
 			ids = append(ids, p.PoolId)
 		}
 		ids = append(ids, 32767)
+		if g.hostile() {
+			// the same pool named more than once / a pool that does not exist
+			switch r.Intn(3) {
+			case 0:
+				ids = append(ids, ids[0], ids[0])
+			case 1:
+				ids = []uint64{ids[r.Intn(len(ids))], 32767, 32767}
+			default:
+				ids = append(ids, 999)
+			}
+		}
 		return &mctypes.MsgClaimRewards{Sender: me, PoolIds: ids}
 	}
 	if m := CommitOps(g, ac, name, ctx); m != nil {
